@@ -2,6 +2,8 @@
 package main
 
 import (
+	"runtime"
+	"runtime/pprof"
 	"encoding/json"
 	"flag"
 	"fmt"
@@ -54,6 +56,14 @@ func main() {
 		var i, n int
 		fmt.Sscanf(*shard, "%d/%d", &i, &n)
 		sim.RunShard(prop, *tier, *seed, i, n, *out)
+		if hp := os.Getenv("VERIF_HEAPPROF"); hp != "" {
+			// harness diagnostics: where does the memory of a long shard go
+			runtime.GC()
+			if f, err := os.Create(hp); err == nil {
+				_ = pprof.WriteHeapProfile(f)
+				_ = f.Close()
+			}
+		}
 	case "replay":
 		verbose := len(os.Args) > 3 && os.Args[3] == "-v"
 		code = sim.Replay(os.Args[2], verbose)
